@@ -346,6 +346,46 @@ func c14One(r *Run, cf *CaseFile, id int, in c14Input) {
 
 // ---- generators ----
 
+// deepTrunk: a trunk of two-neuron layers (every neuron of a layer feeds both neurons of the next one, so a walk that
+// does not memoise takes a while), a top neuron, one to three outputs right behind the top neuron and one output
+// behind a further chain: several outputs share one long trunk, the deepest path belongs to one of them
+func (g c14Gen) deepTrunk(layers int) c14Input {
+	types := []int{1}
+	links := [][2]int{}
+	prev := []int{0}
+	for l := 0; l < layers; l++ {
+		a, b := len(types), len(types)+1
+		types = append(types, 0, 0)
+		for _, p := range prev {
+			links = append(links, [2]int{p, a}, [2]int{p, b})
+		}
+		prev = []int{a, b}
+	}
+	top := len(types)
+	types = append(types, 0)
+	for _, p := range prev {
+		links = append(links, [2]int{p, top})
+	}
+	for k := 0; k < 1+g.intn(3); k++ {
+		o := len(types)
+		types = append(types, 2)
+		links = append(links, [2]int{top, o})
+	}
+	cur := top
+	for k := 0; k < 2+g.intn(2); k++ {
+		h := len(types)
+		types = append(types, 0)
+		links = append(links, [2]int{cur, h})
+		cur = h
+	}
+	o := len(types)
+	types = append(types, 2)
+	links = append(links, [2]int{cur, o})
+	in := g.finish("deep-trunk-several-outputs", types, links)
+	in.Flags, in.Weights = nil, nil
+	return in
+}
+
 type c14Gen struct {
 	r *Run
 }
@@ -803,6 +843,16 @@ func runC14(r *Run) error {
 		add(in)
 	}
 	cf.Close("c14_mismatches")
+	// long shared trunks under several outputs, asked repeatedly (Go oracle only: the walk takes 2^layers steps)
+	for i := 0; i < r.N(6, 40); i++ {
+		in := g.deepTrunk(11 + g.intn(4))
+		g.queries(&in)
+		for len(in.Queries) < 10 {
+			in.Queries = append(in.Queries, [2]int{1, 0}, [2]int{0, 0})
+		}
+		c14One(r, nil, id, in)
+		id++
+	}
 	r.Note("NNode.Depth stops at sensors: on DAGs with links INTO sensors the reported depth counts paths up to the first sensor met backwards (theorem C14_depth_dag_sensor_stopped); the oracle uses that reading")
 	return nil
 }
